@@ -92,7 +92,7 @@ static void decisions(Out& o,const std::string& dir,const Geometry& geo) {
         if (!exists(dir+"/eeg.txt")) return;
         const Sensors el((dir+"/eeg.txt").c_str());
         const Matrix& P = el.getPositions();
-        Matrix M(P.nlin(),6);
+        Matrix M(P.nlin(),8);
         for (unsigned i=0;i<P.nlin();++i) {
             const Vect3 p(P(i,0),P(i,1),P(i,2)); Vect3 al;
             const auto& r = dist_point_geom(p,geo,al);
@@ -100,6 +100,8 @@ static void decisions(Out& o,const std::string& dir,const Geometry& geo) {
             for (const auto& m : geo.meshes()) { if (&m==&std::get<2>(r)) mi = k; ++k; }
             M(i,0) = std::get<1>(r).index(); M(i,1) = mi; M(i,2) = std::get<0>(r);   // distance: degree 1 in length
             M(i,3) = al(0); M(i,4) = al(1); M(i,5) = al(2);
+            M(i,6) = &std::get<1>(r)-&std::get<2>(r).triangles().front();      // position of the triangle in its mesh
+            M(i,7) = std::get<2>(r).triangles().size();
         }
         o.mat("dec_nearest",M);
     });
